@@ -410,13 +410,16 @@ pub fn run(ctx: &Ctx, rep: &mut Report) {
     if ctx.thorough {
         // exhaustive shapes 0..6 x 0..40 x 0..8 for every entry point (types rotate)
         let total = 7 * 41 * 9;
-        for id in ctx.case_ids("shapes", total as u64, total as u64) {
+        // four rounds over the exhaustive shape grid: element types, memory layouts and values rotate
+        let rounds = 4u64;
+        for id in ctx.case_ids("shapes", total as u64 * rounds, total as u64 * rounds) {
             let mut g = ctx.rng("shapes", id);
-            let (a, b, c) = ((id as usize) / (41 * 9), ((id as usize) / 9) % 41, (id as usize) % 9);
+            let (round, sid) = ((id / total as u64) as usize, (id % total as u64) as usize);
+            let (a, b, c) = (sid / (41 * 9), (sid / 9) % 41, sid % 9);
             for (ei, entry) in ENTRIES.iter().enumerate() {
                 let tys = types_for(*entry);
-                let ty = tys[(id as usize + ei) % tys.len()];
-                let encode = (id as usize + ei) % 3 == 0;
+                let ty = tys[(sid + ei + round) % tys.len()];
+                let encode = (sid + ei + round) % 3 == 0;
                 one(rep, "shapes", id, &mut g, ctx, *entry, ty, (a, b, c), encode);
             }
         }
@@ -432,7 +435,7 @@ pub fn run(ctx: &Ctx, rep: &mut Report) {
             one(rep, "shapes", id, &mut g, ctx, entry, ty, shape, encode);
         }
     }
-    for id in ctx.case_ids("faults", 120, 3000) {
+    for id in ctx.case_ids("faults", 120, 30_000) {
         let mut g = ctx.rng("faults", id);
         fault_case(rep, id, &mut g, ctx);
     }
